@@ -394,6 +394,10 @@ def gen_scenario(rng, focus=None):
     sc = {'cfg': cfg, 'transfers': transfers, 'faults': faults, 'cancel': cancel,
           'mode': rng.choice(['uniform', 'sticky', 'sticky', 'pct']), 'sched_seed': rng.randrange(1 << 30),
           'fresh_after': rng.random() < 0.3}
+    # shutdown() without cancel while transfers are still in flight: the barrier itself
+    if cancel is None and rng.random() < 0.25:
+        sc['early_shutdown'] = rng.choice([0, 0, 2, 5, 10, 25, 40])
+        sc['fresh_after'] = False
     if focus:
         focus(sc, rng)
     # a size supplied by a subscriber is the true size (a wrong one is the user's error), and only
@@ -690,6 +694,16 @@ def _run_inner2(sc, sch, sh, env, run):
                 env.log('shutdown-call', cancel=True, msg=cancel['msg'],
                         statuses=[f._coordinator.status for f in futs.values()])
                 tm.shutdown(cancel=True, cancel_msg=cancel['msg'])
+                env.shutdown_returned_at = env.log('shutdown-returned')
+                for ti, f in futs.items():
+                    collect(ti, f)
+                return
+            if sc.get('early_shutdown') is not None and not cancel:
+                n0 = sch.steps
+                sch.block_until(lambda: sch.steps >= n0 + sc['early_shutdown'] or
+                                all(f.done() for f in futs.values()), 'shutdown-delay')
+                env.log('shutdown-call', cancel=False, statuses=[f._coordinator.status for f in futs.values()])
+                tm.shutdown()
                 env.shutdown_returned_at = env.log('shutdown-returned')
                 for ti, f in futs.items():
                     collect(ti, f)
